@@ -172,13 +172,17 @@ func runUnsubscribeRemovesPresence(c *Ctx) {
 		return false
 	}
 	n := 0
-	for _, del := range mapDeletesOf(fn, false, "Client", "channels") {
+	for _, del := range channelDeleteSites(w, fn) {
 		n++
 		bad := PathQ{
 			Stop: removes,
 			Goal: isReturn,
 			EdgeCond: func(cond ssa.Value, outcome bool) bool {
 				if flagTest(cond, cvEmit, "", true, 0) || flagTest(cond, cvSub, "", true, 0) {
+					return outcome
+				}
+				// the walk starts at the delete: this goroutine is the one that removed the entry
+				if isRemovedNowGuard(Guard{Cond: cond, Pol: true}) {
 					return outcome
 				}
 				return true
@@ -292,13 +296,52 @@ func runCloseReleasesCodec(c *Ctx) {
 	if !c.Anchor("C11.R5", "constant statusClosed", ok) {
 		return
 	}
-	release := func(in ssa.Instruction) bool {
+	releaseDirect := func(in ssa.Instruction) bool {
 		ci := asCall(in)
 		if ci == nil {
 			return false
 		}
 		cc := ci.Common()
 		return cc.IsInvoke() && cc.Method.Name() == "CloseDictionaryCompression"
+	}
+	// directly, or in a teardown helper of the same package (where the same type assertion guards it)
+	release := func(in ssa.Instruction) bool {
+		if releaseDirect(in) {
+			return true
+		}
+		ci := asCall(in)
+		if ci == nil {
+			return false
+		}
+		if _, isDefer := in.(*ssa.Defer); isDefer {
+			return false
+		}
+		cal := w.Callee(ci)
+		if cal == nil || cal.Pkg != fn.Pkg || !w.inModule(cal) {
+			return false
+		}
+		found := false
+		EachInstr(cal, func(x ssa.Instruction) {
+			if !releaseDirect(x) {
+				return
+			}
+			// in the helper the release may depend on the type assertion only
+			only := true
+			for _, g := range Guards(x) {
+				ex, ok := g.Cond.(*ssa.Extract)
+				if !ok {
+					only = false
+					continue
+				}
+				if _, isTA := ex.Tuple.(*ssa.TypeAssert); !isTA {
+					only = false
+				}
+			}
+			if only {
+				found = true
+			}
+		})
+		return found
 	}
 	n := 0
 	for _, st := range storesToField(fn, false, "Client", "status") {
@@ -477,7 +520,28 @@ func runHistoryReadRefreshesMeta(c *Ctx) {
 			return false
 		}
 		cal := w.Callee(ci)
-		return cal != nil && w.inModule(cal) && len(mapUpdatesOf(cal, false, "historyHub", "removes")) > 0
+		var writes func(f *ssa.Function, d int) bool
+		writes = func(f *ssa.Function, d int) bool {
+			if f == nil || !w.inModule(f) || d < 0 {
+				return false
+			}
+			if len(mapUpdatesOf(f, false, "historyHub", "removes")) > 0 {
+				return true
+			}
+			found := false
+			EachInstr(f, func(x ssa.Instruction) {
+				if found {
+					return
+				}
+				if xc := asCall(x); xc != nil {
+					if g := w.Callee(xc); g != nil && g.Pkg == f.Pkg && writes(g, d-1) {
+						found = true
+					}
+				}
+			})
+			return found
+		}
+		return writes(cal, 2)
 	}
 	bad := PathQ{Stop: refreshes, Goal: isReturn}.FromEntry(fn)
 	c.CheckAt("C18.R5", "(*centrifuge.historyHub).get: every read refreshes the stream's meta deadline", w.Pos(fn.Pos()), bad == nil,
@@ -856,6 +920,20 @@ func runLimitArmedPerMessage(c *Ctx) {
 		n++
 		obj := mi.X
 		armed := false
+		// a constructor call made for this message: the object is fresh and the constructor sets its budget
+		if call, ok := obj.(*ssa.Call); ok {
+			if h := call.Call.StaticCallee(); h != nil && len(h.Blocks) > 0 && h.Pkg == fn.Pkg {
+				EachInstr(h, func(in ssa.Instruction) {
+					if s2, ok := in.(*ssa.Store); ok {
+						if fa, ok := s2.Addr.(*ssa.FieldAddr); ok && fieldAddrIs(fa, "limitedReader", "remaining") {
+							if _, isAlloc := fa.X.(*ssa.Alloc); isAlloc {
+								armed = true
+							}
+						}
+					}
+				})
+			}
+		}
 		EachInstr(fn, func(in ssa.Instruction) {
 			s2, ok := in.(*ssa.Store)
 			if !ok {
@@ -1246,7 +1324,20 @@ func runSizeAccountingSymmetric(c *Ctx) {
 				continue
 			}
 			bi, ok := call.Call.Value.(*ssa.Builtin)
-			if !ok || bi.Name() != "len" {
+			if !ok {
+				// a shared size helper: symmetric when both sides use the same one
+				if cal := w.Callee(call); cal != nil && w.inModule(cal) {
+					key := "call:" + shortFuncName(cal)
+					if b.Op == token.ADD {
+						added[key] = true
+					} else {
+						removed[key] = true
+					}
+					pos = w.InstrPos(st)
+				}
+				continue
+			}
+			if bi.Name() != "len" {
 				continue
 			}
 			chain := fieldChain(call.Call.Args[0])
@@ -1282,4 +1373,128 @@ func runSizeAccountingSymmetric(c *Ctx) {
 	sort.Strings(onlyRem)
 	c.CheckAt("C38.R7", "publicationQueue: the payload fields counted into size on Add are the ones given back on Remove", pos, len(onlyAdd) == 0 && len(onlyRem) == 0,
 		"counted on one side only: added "+strings.Join(onlyAdd, ",")+" removed "+strings.Join(onlyRem, ",")+" — the counter drifts until an empty queue exceeds the byte limit and every publication is dropped without any signal")
+}
+
+func init() {
+	r4doc("C36", "C36.R7", "freshness: a subscription is expired on the expireAt of its live context, read after the tick's round trips")
+	round3Hooks["C36"] = append(round3Hooks["C36"], runExpiryUsesLiveContext)
+}
+
+// runExpiryUsesLiveContext (C36.R7): the periodic tick snapshots the channel contexts, runs the presence
+// and position duties (network round trips, possibly slow) and only then decides about expiry, with the
+// clock read at decision time. A SUB_REFRESH that lands during the round trips moves expireAt forward in
+// Client.channels only; deciding on the snapshot's expireAt unsubscribes, as expired, a subscription that
+// was refreshed in time. The context handed to checkSubscriptionExpiration must carry an expireAt read
+// from Client.channels with no tick duty between that read and the check.
+func runExpiryUsesLiveContext(c *Ctx) {
+	w := c.W
+	fn := w.Func("centrifuge", "(*Client).updatePresence")
+	if !c.Anchor("C36.R7", "(*Client).updatePresence", fn) {
+		return
+	}
+	duty := w.calleeIs("Client.runTickDuty")
+	duties := CallsIn(fn, false, duty)
+	fromLookup := func(v ssa.Value) *ssa.Lookup {
+		for i := 0; i < 6; i++ {
+			switch x := v.(type) {
+			case *ssa.Field:
+				v = x.X
+			case *ssa.Extract:
+				v = x.Tuple
+			case *ssa.UnOp:
+				v = x.X
+			case *ssa.FieldAddr:
+				v = x.X
+			case *ssa.Lookup:
+				if loadsField(x.X, "Client", "channels") {
+					return x
+				}
+				return nil
+			case *ssa.Alloc:
+				sv := singleStore(x)
+				if sv == nil {
+					return nil
+				}
+				v = sv
+			default:
+				return nil
+			}
+		}
+		return nil
+	}
+	n := 0
+	for _, ci := range CallsIn(fn, false, w.calleeIs("Client.checkSubscriptionExpiration")) {
+		n++
+		live := false
+		for _, a := range ci.Common().Args {
+			ld, ok := a.(*ssa.UnOp)
+			if !ok {
+				continue
+			}
+			al, ok := ld.X.(*ssa.Alloc)
+			if !ok {
+				continue
+			}
+			for _, r := range *al.Referrers() {
+				fa, ok := r.(*ssa.FieldAddr)
+				if !ok || !fieldAddrIs(fa, "ChannelContext", "expireAt") {
+					continue
+				}
+				for _, rr := range *fa.Referrers() {
+					st, ok := rr.(*ssa.Store)
+					if !ok || st.Addr != ssa.Value(fa) {
+						continue
+					}
+					lk := fromLookup(st.Val)
+					if lk == nil || !Reaches(lk, ci) {
+						continue
+					}
+					stale := false
+					for _, d := range duties {
+						if Reaches(lk, d) && Reaches(d, ci) && !Reaches(ci, lk) {
+							stale = true
+						}
+					}
+					if !stale {
+						live = true
+					}
+				}
+			}
+		}
+		c.Check("C36.R7", ci, "the expiry check runs on an expireAt read from Client.channels after the tick's round trips", live,
+			"the snapshot taken at the start of the tick is compared with a clock read after the presence/position round trips: a SUB_REFRESH that arrived in time but during a slow pass is ignored and the subscription is unsubscribed as expired")
+	}
+	c.Anchor("C36.R7", "checkSubscriptionExpiration call in updatePresence", n >= 1)
+}
+
+func init() {
+	r4doc("C36", "C36.R8", "K2: a fired timer callback claims a due deadline before it runs the operation it finds scheduled")
+	round3Hooks["C36"] = append(round3Hooks["C36"], runTimerCallbackClaimsDeadline)
+}
+
+// runTimerCallbackClaimsDeadline (C36.R8): the connection has one timer; scheduleNextTimer stores the
+// operation to run next in Client.timerOp and re-arms the timer, and the callback onTimerOp runs whatever
+// timerOp holds when it gets c.mu. Stop/Reset do not cancel a callback that already fired, so when another
+// goroutine re-arms the timer (Refresh, a sub refresh, the presence tick) while a fired callback waits for
+// the lock, the same due operation fires twice — or the second firing finds the *next* operation (the
+// pong check scheduled by the ping that just went out) and runs it at once: a client that answers every
+// ping is disconnected with the no-pong code, or is sent two pings and then disconnected for its second
+// pong. The callback must verify under c.mu that the operation it picked is due (its next* deadline is
+// set and reached) and claim it. Structurally: onTimerOp reads one of the next* deadline fields.
+func runTimerCallbackClaimsDeadline(c *Ctx) {
+	w := c.W
+	fn := w.Func("centrifuge", "(*Client).onTimerOp")
+	if !c.Anchor("C36.R8", "(*Client).onTimerOp", fn) {
+		return
+	}
+	reads := false
+	for _, f := range []string{"nextPing", "nextPong", "nextPresence", "nextExpire"} {
+		for _, acc := range FieldAccesses(fn, "Client", f) {
+			if !acc.Write && w.Locks().HeldAt(acc.In).Holds("Client.mu", false) {
+				reads = true
+			}
+		}
+	}
+	c.CheckAt("C36.R8", "(*centrifuge.Client).onTimerOp: a fired callback verifies under c.mu that the scheduled operation is due", w.Pos(fn.Pos()), reads,
+		"onTimerOp runs whatever timerOp holds when it gets the lock; a callback that fired before a concurrent re-arm runs the operation a second time, or runs the next operation (the pong check) immediately")
 }
